@@ -324,6 +324,86 @@ class RawSource(io.RawIOBase):
         return len(chunk)
 
 
+class GrowingSource(io.RawIOBase):
+    """A seekable input that is still being written while it is read (a file a producer appends to): `visible` bytes
+    exist when it is opened; before every read the producer has written at least what the read asks for (up to the
+    final length, where the producer died). Whoever measures the input once, at the start, sees the smaller size."""
+
+    def __init__(self, data: bytes, visible: int) -> None:
+        super().__init__()
+        self._data, self._visible, self._pos = data, min(visible, len(data)), 0
+
+    def readable(self) -> bool:
+        return True
+
+    def seekable(self) -> bool:
+        return True
+
+    def tell(self) -> int:
+        return self._pos
+
+    def seek(self, offset: int, whence: int = 0) -> int:
+        base = {0: 0, 1: self._pos, 2: self._visible}[whence]
+        self._pos = max(0, base + offset)
+        return self._pos
+
+    def read(self, n: int = -1) -> bytes:
+        want = len(self._data) if n is None or n < 0 else self._pos + n
+        self._visible = max(self._visible, min(len(self._data), want))
+        out = self._data[self._pos:min(self._visible, want)]
+        self._pos += len(out)
+        return out
+
+    def readinto(self, b) -> int:
+        out = self.read(len(b))
+        b[: len(out)] = out
+        return len(out)
+
+    def readall(self) -> bytes:
+        return self.read(-1)
+
+
+class GrowingFile(io.FileIO):
+    """The same with a real file: the rest of the data is appended through a second descriptor just before the read
+    that asks for it."""
+
+    def __init__(self, data: bytes, visible: int) -> None:
+        import os
+        import tempfile
+
+        fd, path = tempfile.mkstemp(prefix="verif_grow_")
+        self._w = os.fdopen(fd, "wb", buffering=0)
+        self._w.write(data[:visible])
+        self._rest, self._written = data, min(visible, len(data))
+        super().__init__(path, "rb")
+        os.unlink(path)
+
+    def _grow(self, n: int) -> None:
+        want = len(self._rest) if n is None or n < 0 else self.tell() + n
+        upto = min(len(self._rest), want)
+        if upto > self._written:
+            self._w.write(self._rest[self._written:upto])
+            self._written = upto
+
+    def read(self, n: int = -1) -> bytes:
+        self._grow(n)
+        return super().read(n)
+
+    def readinto(self, b) -> int:
+        self._grow(len(b))
+        return super().readinto(b)
+
+    def readall(self) -> bytes:
+        self._grow(-1)
+        return super().readall()
+
+    def close(self) -> None:
+        try:
+            self._w.close()
+        finally:
+            super().close()
+
+
 def make_source(source: str, data: bytes):
     if source == "seek":
         return io.BytesIO(data)
@@ -338,6 +418,10 @@ def make_source(source: str, data: bytes):
         fh = open(path, "rb")  # noqa: SIM115
         os.unlink(path)
         return fh
+    if source.startswith("grow:"):
+        return GrowingSource(data, int(source[5:]))
+    if source.startswith("growfile:"):
+        return GrowingFile(data, int(source[9:]))
     if source.startswith("raw:"):
         return RawSource(data, [int(x) for x in source[4:].split(",")])
     raise ValueError(source)
